@@ -117,6 +117,76 @@ class World:
                 cmp=False, tag="key")
         return (s, idx)
 
+    def keyorc_lines(self, tree):
+        """`oracle keyorc` lines for every JWK-shaped object in the document: what the independent
+        OpenSSL caller makes of the (independently decoded) key material"""
+        from suites import py_lenient_b64 as dec
+        out = []
+        objs = []
+        if isinstance(tree, dict):
+            ks = tree.get("keys", None)
+            if "keys" not in tree:
+                objs = [tree]
+            elif isinstance(ks, list):
+                objs = [o for o in ks if isinstance(o, dict)]
+
+        def d(o, name):
+            v = o.get(name)
+            if not isinstance(v, str):
+                return None
+            try:
+                b = dec(v.encode("utf-8"))
+            except Exception:
+                return None
+            return b if b else None
+        for o in objs:
+            kty = o.get("kty")
+            qs = []
+            if kty == "RSA":
+                n, e = d(o, "n"), d(o, "e")
+                comps = [d(o, c) for c in ("d", "p", "q", "dp", "dq", "qi")]
+                if n and e:
+                    for pss in (0, 1):
+                        qs.append("rsa %d %s %s" % (pss, n.hex(), e.hex()))
+                        if all(comps):
+                            qs.append("rsa %d %s %s %s" % (pss, n.hex(), e.hex(), " ".join(c.hex() for c in comps)))
+            elif kty == "EC":
+                crv, x, y, dd = o.get("crv"), d(o, "x"), d(o, "y"), d(o, "d")
+                if isinstance(crv, str) and x and y:
+                    c = crv.encode("utf-8").hex() or "-"
+                    qs.append("ec %s %s %s" % (c, x.hex(), y.hex()))
+                    if dd:
+                        qs.append("ec %s %s %s %s" % (c, x.hex(), y.hex(), dd.hex()))
+            elif kty == "OKP":
+                crv = o.get("crv")
+                if isinstance(crv, str):
+                    c = crv.encode("utf-8").hex() or "-"
+                    for name, priv in (("d", 1), ("x", 0)):
+                        b = d(o, name)
+                        if b:
+                            qs.append("okp %s %d %s" % (c, priv, b.hex()))
+            for q in qs:
+                if q not in self.answers:
+                    self.answers[q] = self.oracle._ask("fromdata " + q)
+                    self.oracle_stats["keyorc"] = self.oracle_stats.get("keyorc", 0) + 1
+                out.append("oracle keyorc %s %s" % (q.replace(" ", "+"), self.answers[q]))
+        return out
+
+    def load_doc(self, s, text, via="strn", tag="load"):
+        """load JWK/JWKS text into set `s` on both sides (model gets the tree + key-material oracle answers)"""
+        t = text
+        if via in ("str", "create") and t is not None:
+            t = t.split(b"\0")[0]
+        ok, tree = jsonlib.loads(t, decode_any=True) if t is not None else (False, None)
+        if ok:
+            for l in self.keyorc_lines(tree):
+                self.op("echo", l, cmp=False, tag="oracle")
+        if text is None:
+            self.op("jwks %d load NULL %s" % (s, via), "echo", cmp=False, tag=tag)
+            return ok, tree
+        self.op("jwks %d load %s %s" % (s, hx(text), via), "jwks %d load %s" % (s, jsonlib.jenc(tree) if ok else "none"), tag=tag)
+        return ok, tree
+
     # ---- oracle answers ----
     def answer(self, need):
         t = need.split()
